@@ -229,7 +229,6 @@ func (p *parser) parseFunc() Node {
 		p.appendError("missing return")
 	}
 	p.assertEnd()
-	p.advance()
 	p.recordComment(block)
 	p.advancePastNL()
 	fd.Body = block
@@ -285,7 +284,6 @@ func (p *parser) parseEventHandler() Node {
 	p.addEventParamsToScope(e)
 	e.Body = p.parseBlock()
 	p.assertEnd()
-	p.advance()
 	p.recordComment(e.Body)
 	p.advancePastNL()
 	return e
@@ -652,8 +650,14 @@ func (p *parser) assertEOL() {
 	}
 }
 
+// assertEnd asserts the `end` token, advances past it, and asserts that
+// only a comment may follow it on the line.
 func (p *parser) assertEnd() {
-	p.assertToken(lexer.END)
+	ok := p.assertToken(lexer.END)
+	p.advance()
+	if ok {
+		p.assertEOL()
+	}
 }
 
 func (p *parser) appendError(message string) {
@@ -896,7 +900,6 @@ func (p *parser) parseForStatement() Node {
 	p.advancePastNL()
 	forNode.Block = p.parseBlock()
 	p.assertEnd()
-	p.advance()
 	p.recordComment(forNode.Block)
 	p.advancePastNL()
 	return forNode
@@ -941,7 +944,6 @@ func (p *parser) parseWhileStatement() Node {
 	while.Block = p.parseBlock()
 	p.recordCommentString(&while.ConditionalBlock, comment)
 	p.assertEnd()
-	p.advance()
 	p.recordComment(while.ConditionalBlock.Block)
 	p.advancePastNL()
 	return while
@@ -983,7 +985,6 @@ func (p *parser) parseIfStatement() Node {
 		ifStmt.Else = elseBlock
 	}
 	p.assertEnd()
-	p.advance()
 	p.recordComment(ifStmt)
 	p.advancePastNL()
 	return ifStmt
